@@ -518,6 +518,46 @@ def validateDoc (a : DocArgs) : Except Err Unit :=
     | .single b => if sectionOk cols b then .ok () else .error .validationError
     | _ => .error .attributeError                      -- `body.group_by` on a list / None (not a listed rule)
 
+/-! ## the data as the document validator sees it: column names and, independently, the number of rows -/
+
+/-- A DataFrame: its column names (`df.columns`) and its height (`df.height`). The validator and
+`RTFDocument.__init__` read `df.columns`, `df.shape[1]` and `len(df_list)` only — never the height; the record
+carries the height so that this is a statement (`Props/C19.lean`, `C19_document_rows_irrelevant`) and so that
+the correspondence runs over 0, 1 and many rows. -/
+structure Frame where
+  cols : List String
+  nrows : Nat := 3
+  deriving Repr, Inhabited
+
+/-- the `df` argument on real frames -/
+inductive DfData where
+  | none
+  | single (f : Frame)
+  | multi (fs : List Frame)
+  deriving Repr, Inhabited
+
+/-- what the validator looks at: the column lists -/
+def DfData.toArg : DfData → DfArg
+  | .none => .none
+  | .single f => .single f.cols
+  | .multi fs => .multi (fs.map (·.cols))
+
+/-- the same frames with other heights (`hs` runs along the section list; missing entries keep the height) -/
+def DfData.withRows : DfData → List Nat → DfData
+  | .none, _ => .none
+  | .single f, h :: _ => .single { f with nrows := h }
+  | .single f, [] => .single f
+  | .multi fs, hs => .multi (reheight fs hs)
+where
+  reheight : List Frame → List Nat → List Frame
+    | [], _ => []
+    | f :: fs, [] => f :: fs
+    | f :: fs, h :: hs => { f with nrows := h } :: reheight fs hs
+
+/-- `RTFDocument(df=…, …)` on real frames: `_validate_section_columns` reads `df.columns` only -/
+def validateDocData (d : DfData) (a : DocArgs) : Except Err Unit :=
+  validateDoc { a with df := d.toArg }
+
 /-! ## "nothing is produced" — the pipeline shape -/
 
 /-- `RTFDocument(...)` followed by `rtf_encode()`: the string only exists if construction returned -/
